@@ -180,5 +180,9 @@ void h_run(void) {
   } else if (tokens != 0)
     sim_violation("C05-token-count", "%d tokens left after all waiters consumed theirs", tokens);
   if (cv.waiter_count != 0) sim_violation("C05-state-at-rest", "waiter_count %ld at rest", (long)cv.waiter_count);
+  fiber_cond_destroy(&cv);
+  fiber_mutex_destroy(&cm);
+  free(cv_p);
+  free(cm_p);
   h_fiber_end();
 }
